@@ -11,6 +11,9 @@ Theorem C01_enc_layer_transparent :
   forall (S : Stream) (plain : bytes) (Rin : st S -> N -> Prop),
     Refines S (enc_format CHUNK ks tagc plain) Rin ->
     nfull CHUNK (len plain) + 2 < 2 ^ 32 ->
+    (* u64 / i64 ranges of the reader's seek arithmetic (see C11_enc_reader_refines; implied by the chunk bound when
+       CHUNK + TAG <= 2^31: C11_enc_ranges_of_sizes) *)
+    (len plain / CHUNK + 1) * CTS CHUNK TAG <= 2 ^ 64 - 1 -> len plain < 2 ^ 63 ->
     Refines (EncReader CHUNK TAG ks tagc S) plain (Renc CHUNK TAG ks tagc S plain Rin).
 Proof. exact enc_reader_refines. Qed.
 
@@ -281,7 +284,7 @@ Theorem C01_archive_roundtrip :
   (wc_encrypt cfg = true ->
      len (wc_key cfg) = 32 /\ len (wc_nonce cfg) = 8 /\
      (forall i c, len (tagf (wc_key cfg) (wc_nonce cfg) i c) = TAG) /\
-     nfull CHUNK (len (mid_of BLOCK cfg blocks)) + 2 < 2 ^ 32 /\
+     (nfull CHUNK (len (mid_of BLOCK cfg blocks)) + 2 < 2 ^ 32 /\ CHUNK + TAG <= 2 ^ 31) /\
      dh s (pubk (wc_eph cfg)) = dh (wc_eph cfg) (pubk s) /\
      In (pubk s) (wc_recipients cfg) /\ In s privs) ->
   config_size (to_persistent pubk dh kdf wenc wtag cfg) <= LIMIT ->
@@ -320,7 +323,7 @@ Theorem C01_archive_roundtrip_gcm :
   (wc_encrypt cfg = true ->
      len (wc_key cfg) = 32 /\ len (wc_nonce cfg) = 8 /\
      (forall i c, len (tagf (wc_key cfg) (wc_nonce cfg) i c) = TAG) /\
-     nfull CHUNK (len (mid_of BLOCK cfg blocks)) + 2 < 2 ^ 32 /\
+     (nfull CHUNK (len (mid_of BLOCK cfg blocks)) + 2 < 2 ^ 32 /\ CHUNK + TAG <= 2 ^ 31) /\
      dh s (pubk (wc_eph cfg)) = dh (wc_eph cfg) (pubk s) /\
      In (pubk s) (wc_recipients cfg) /\ In s privs) ->
   config_size (to_persistent pubk dh kdf (gwenc E gmul) (gwtag E gmul) cfg) <= LIMIT ->
@@ -386,7 +389,7 @@ Proof.
     + split; [vm_compute; discriminate|]. split; vm_compute; reflexivity.
   - intros _. split; [vm_compute; reflexivity|]. split; [vm_compute; reflexivity|]. split.
     + apply tagf_gcm_len; vm_compute; reflexivity.
-    + split; [vm_compute; reflexivity|]. split.
+    + split; [split; [vm_compute; reflexivity | vm_compute; discriminate]|]. split.
       * change (wc_eph ex3_cfg) with X25519.alice_sk.
         rewrite X25519.x25519_kat_rfc7748_6_1_alice, X25519.x25519_kat_rfc7748_6_1_bob,
           X25519.x25519_kat_rfc7748_6_1_shared_a. exact X25519.x25519_kat_rfc7748_6_1_shared_b.
